@@ -1185,7 +1185,12 @@ func (vc *VC) havocLocation(st *State, pre *State, loc string, env map[string]Va
 					before := vc.heapGet(st, key, es)
 					st.heap[key] = vc.fresh("H_"+key, "(Array Int "+es+")")
 					if condRel != "" {
-						vc.assume(st, fmt.Sprintf("(forall ((r Int)) (! (=> (not (uf_%s %s r)) (= (select %s r) (select %s r))) :pattern ((select %s r))))", condRel, condArg, st.heap[key], before, st.heap[key]))
+						ff := fmt.Sprintf("(forall ((r Int)) (! (=> (not (uf_%s %s r)) (= (select %s r) (select %s r))) :pattern ((select %s r))))", condRel, condArg, st.heap[key], before, st.heap[key])
+						lenBefore := len(st.pc)
+						vc.assume(st, ff)
+						if len(st.pc) > lenBefore {
+							vc.frameFacts[st.pc[len(st.pc)-1]] = []string{st.heap[key]}
+						}
 					}
 				}
 			}
